@@ -12,6 +12,7 @@
 //     e  vita::run(ind, example)             s  one src_interpreter<i_mep> object, run(example)
 //     k  vita::run(ind.get_block(l), ex)     l  the same src_interpreter object, run_locus(l)
 //     L  one reg_lambda_f<i_mep> object, operator()(example)
+//     H  long history, see do_case (output " | H <N> <#disagreements> {<run>=<used>~<fresh>}*")
 //     C  that object replaced by a copy of itself, then operator()(example)
 // Output (one line):
 //   C <row>:<cat>:<argcats|-> ... {| R <res> F <res|-> S <state|->}*
@@ -135,21 +136,61 @@ template<class F> std::string guarded(F f)
   }
 }
 
+// The memo and ip_ are private details: they are printed when they still have
+// the shape the model knows (a rows x categories matrix of {valid, value} and
+// a locus); after a refactoring of the representation the harness keeps
+// compiling, prints "?" and the check goes on with the results alone.
+template<class I, class = void> struct state_printer
+{
+  static std::string show(const I &) { return "?"; }
+};
+
+template<class I>
+struct state_printer<I, std::void_t<
+  decltype(std::declval<const I &>().ip_.index),
+  decltype(std::declval<const I &>().ip_.category),
+  decltype(std::declval<const I &>().cache_.rows()),
+  decltype(std::declval<const I &>().cache_.cols()),
+  decltype(std::declval<const I &>().cache_(std::size_t(0), std::size_t(0)).valid),
+  decltype(std::declval<const I &>().cache_(std::size_t(0), std::size_t(0)).value)>>
+{
+  static std::string show(const I &in)
+  {
+    std::ostringstream o;
+    o << in.ip_.index << ',' << in.ip_.category;
+    std::size_t n(0);
+    std::ostringstream e;
+    for (std::size_t r(0); r < in.cache_.rows(); ++r)
+      for (std::size_t c(0); c < in.cache_.cols(); ++c)
+        if (in.cache_(r, c).valid)
+        {
+          ++n;
+          e << ' ' << r << ',' << c << '=' << vv::show(in.cache_(r, c).value);
+        }
+    o << ' ' << n << e.str();
+    return o.str();
+  }
+};
+
 std::string show_state(const interpreter<i_mep> &in)
 {
-  std::ostringstream o;
-  o << in.ip_.index << ',' << in.ip_.category;
-  std::size_t n(0);
-  std::ostringstream e;
-  for (std::size_t r(0); r < in.cache_.rows(); ++r)
-    for (std::size_t c(0); c < in.cache_.cols(); ++c)
-      if (in.cache_(r, c).valid)
-      {
-        ++n;
-        e << ' ' << r << ',' << c << '=' << vv::show(in.cache_(r, c).value);
-      }
-  o << ' ' << n << e.str();
-  return o.str();
+  return state_printer<interpreter<i_mep>>::show(in);
+}
+
+// one value of a long-history example template:
+//   #        the run number as a double        #i   the run number as an int
+//   @a|b     value a on the runs listed as "taken", value b on the others
+//   anything else: a literal value
+value_t template_value(const std::string &t, std::size_t r, bool taken)
+{
+  if (t == "#") return static_cast<double>(r);
+  if (t == "#i") return static_cast<D_INT>(r);
+  if (!t.empty() && t[0] == '@')
+  {
+    const auto bar(t.find('|'));
+    return vv::parse_value(taken ? t.substr(1, bar - 1) : t.substr(bar + 1));
+  }
+  return vv::parse_value(t);
 }
 
 struct cell_t { std::size_t row; gene g; };
@@ -233,6 +274,40 @@ std::string do_case(const std::vector<std::string> &w)
   for (std::size_t k(0); k < nruns; ++k)
   {
     const std::string mode(next());
+    if (mode == "H")
+    {
+      // H <s|L> <N> <nvals> <template>* <ntaken> <run>* : one persistent object run N times
+      // (runs numbered from 1); every run is compared with a fresh interpreter here, only the
+      // taken runs and the first disagreements are printed
+      const std::string obj(next());
+      const std::size_t n_runs(std::stoul(next())), nv(std::stoul(next()));
+      std::vector<std::string> tpl;
+      for (std::size_t i(0); i < nv; ++i) tpl.push_back(next());
+      std::set<std::size_t> taken;
+      const std::size_t nt(std::stoul(next()));
+      for (std::size_t i(0); i < nt; ++i) taken.insert(std::stoul(next()));
+
+      if (obj == "s" && !si) si = std::make_unique<src_interpreter<i_mep>>(&ind);
+      if (obj == "L" && !lam) lam = std::make_unique<reg_lambda_f<i_mep>>(ind);
+      std::size_t nmis(0);
+      std::ostringstream shown;
+      dataframe::example e;
+      for (std::size_t r(1); r <= n_runs; ++r)
+      {
+        const bool tk(taken.count(r));
+        e.input.clear();
+        for (const auto &t : tpl) e.input.push_back(template_value(t, r, tk));
+        const std::string used(obj == "s" ? guarded([&] { return si->run(e.input); })
+                                          : guarded([&] { return (*lam)(e); }));
+        const std::string fresh(guarded([&] { return run(ind, e.input); }));
+        const bool mis(used != fresh);
+        if (mis) ++nmis;
+        if (tk || (mis && nmis <= 8))
+          shown << ' ' << r << '=' << used << '~' << fresh;
+      }
+      out << " | H " << n_runs << ' ' << nmis << shown.str();
+      continue;
+    }
     const locus l{std::stoul(next()), std::stoul(next())};
     const std::size_t nvals(std::stoul(next()));
     std::vector<value_t> ex;
